@@ -372,6 +372,25 @@ class _Run:
         if np.shape(dense2) != np.shape(dense) or not np.array_equal(dense, dense2):
             self.bad("value:toarray", f"{what}: toarray() differs from todense()")
             ok = False
+        # read-only observers are evaluated on every live value after every step (not only when a program happens to
+        # call them): a result cached by an earlier observation must follow later in-place changes of the value
+        if ok and m is not None and m.size:
+            S = sp.coo_matrix(np.triu(np.ones(m.shape)))
+            r2 = self.pm("contract_multi", lambda: (d.contract_multi([S]), d.diagonal()))
+            if r2 is _FAIL:
+                self.stop = True
+                return False
+            cm, dg = r2
+            want_cm = np.sum(np.triu(m))
+            tolv = self.tol(e["s"]) * max(1, m.size)
+            if np.shape(cm) != (1,) or not abs(complex(cm[0]) - complex(want_cm)) <= tolv:
+                self.bad("value:observer:contract_multi", f"{what}: contract_multi([triu ones]) = {cm!r}, dense model gives "
+                                                          f"{want_cm!r}")
+                ok = False
+            want_dg = np.diagonal(m)
+            if np.shape(dg) != want_dg.shape or (want_dg.size and not np.abs(dg - want_dg).max() <= tolv):
+                self.bad("value:observer:diagonal", f"{what}: diagonal() differs from the dense model")
+                ok = False
         if not ok:
             self.stop = True
         return ok
